@@ -4,7 +4,7 @@ mode/path, with bounds lists in which any subset of bounds is unresolvable; plus
 agreement (same request through every engine that accepts it)."""
 from cases import evaluate, run_corpus, normalise_field_case, lines_straddle_with_fallback
 from common import case_line, parse_result
-from gen import bound_text, sides, wellformed_bound
+from gen import bound_text, sides, wellformed_bound, pick_side
 
 LEVEL = "proof"
 KEY = "lines-fwd-straddling-range-with-fallback"
@@ -32,7 +32,8 @@ def stream_straddle_with_fallback(c):
 def _run_once(chk):
     chk.rule = ("for n in 0..4 parts: 1-3 bounds with sides in ±(n+2)/open (so each bound independently resolves, overshoots on the left, "
                 "on the right, positively or negatively, or crosses), each with own fallback or not, × generic fallback or not, through: "
-                "-f general path, fast path, --json, -m, -c, -b, -l (both algorithms), -M; non-trivial = some bound unresolvable or output "
+                "-f general path, fast path, --json, -m, -c, -b, -l (both algorithms; a tenth of the inputs carry a line that is not UTF-8), -M; a third of the runs through a short-writing "
+                "writer; non-trivial = some bound unresolvable or output "
                 "selects a byte")
     run_corpus(chk)
     rng = chk.rng
@@ -45,8 +46,8 @@ def _run_once(chk):
         bs = []
         for _ in range(nb):
             while True:
-                l = rng.choice(sides(n + 2))
-                r = rng.choice(sides(n + 2))
+                l = pick_side(rng, n + 2)
+                r = pick_side(rng, n + 2)
                 single = rng.random() < 0.4
                 if single:
                     if l is None:
@@ -92,10 +93,18 @@ def _run_once(chk):
             ls = [rng.choice([b"a", b"bc"]) for _ in range(n)]
             if n == 0:
                 continue
+            if rng.random() < 0.1:
+                # a line that is not UTF-8: -l must refuse it (status 1) — never answer it with a fallback as if the input had ended
+                k = rng.randrange(n)
+                ls[k] = ls[k] + b"\xff"
+                c["meta"] = {"invalid_utf8_line": True}
             c.update({"eng": "lines", "bt": "l", "d": eol, "in": eol.join(ls) + eol, "j": rng.random() < 0.8})
         cases.append(normalise_field_case(c))
     for c in cases[:5]:
         chk.sample(case_line(c))
+    for c in cases:
+        if "seg" not in c and rng.random() < 0.33:
+            c["sw"] = rng.randint(1, 3)          # short writes (see cases.evaluate)
     lines = [case_line(c) for c in cases]
     # evaluate() with spec oracle, but route the known finding
     from common import run_impl, run_model, cmp_model
@@ -113,6 +122,8 @@ def _run_once(chk):
         bad = False
         if ist in ("panic", "hang", "killed"):
             bad = True
+        elif (c.get("meta") or {}).get("invalid_utf8_line"):
+            bad = ist == "ok" and i != s        # refusing the input is right; answering with anything but the selected lines is not
         elif sst == "ok":
             bad = i != s
         else:
